@@ -640,10 +640,11 @@ fn kitty_image_id(img: &Image) -> u64 {
 /// the screen.
 ///
 /// Zero is not a valid placement id (the protocol reads it as "unspecified"),
-/// so identifiers are in the range `1..=KITTY_MAX_ID`.
+/// so identifiers are in the range `1..=KITTY_MAX_ID`. There is one position
+/// more than there are identifiers: the very last one shares the largest id.
 fn kitty_placement_id(pos: Position) -> u64 {
     let index = (pos.row as u64 % KITTY_MAX_DIM) + (pos.col as u64 % KITTY_MAX_DIM) * KITTY_MAX_DIM;
-    index % KITTY_MAX_ID + 1
+    index.min(KITTY_MAX_ID - 1) + 1
 }
 
 fn kitty_placement_to_pos(placement_id: u64) -> Position {
